@@ -96,7 +96,11 @@ pub fn add_sim_natives(h: &Host, ts: &SharedTick) {
             _ => return koto::runtime::runtime_error!("caught: bad arguments"),
         };
         let text = render_plain(ctx.vm, &e);
-        st.lock().unwrap().caught.push((id, host::first_line(&text)));
+        let first = host::first_line(&text);
+        // a thrown value arrives at its handler as it was thrown; only runtime errors are
+        // rendered (message, then possibly the trace gathered so far): flag other text
+        let first = if text.trim_end().lines().count() > 1 { format!("{first} [+more lines]") } else { first };
+        st.lock().unwrap().caught.push((id, first));
         Ok(KValue::Null)
     });
 
@@ -159,7 +163,7 @@ impl Default for Observed {
 /// The step cap of one execution: a fixed budget plus an allowance for the iterations of the
 /// program's storm loops that the reference model counted
 pub fn step_cap_for(pred: &Prediction) -> u64 {
-    STEP_CAP + 200 * pred.storm_iterations
+    STEP_CAP + 200 * pred.storm_iterations + 400 * pred.model_steps
 }
 
 thread_local! {
@@ -199,7 +203,9 @@ pub fn execute(source: &str, plan: &FaultPlan, clock: &Rc<VClock>, step_cap: u64
         sc.dir.join("main.koto").to_string_lossy().to_string()
     });
     let r = catch_unwind(AssertUnwindSafe(|| {
-        let args = koto::CompileArgs::new(source).script_path(script_path.as_str());
+        let args = koto::CompileArgs::new(source)
+            .script_path(script_path.as_str())
+            .enable_type_checks(!source.starts_with(crate::simlang::TYPE_CHECKS_OFF_HEADER));
         match koto.compile_and_run(args) {
             Ok(v) => (host::render_result(koto, Ok(v)), None),
             Err(e) => {
@@ -303,8 +309,23 @@ pub fn compare(pred: &Prediction, obs: &Observed) -> Option<Violation> {
     if pred.markers != obs.markers {
         return v("markers", first_diff(&pred.markers, &obs.markers));
     }
-    if pred.caught != obs.caught {
-        return v("caught-values", first_diff(&pred.caught, &obs.caught));
+    {
+        // runtime errors may or may not carry trace lines when they reach a handler; thrown
+        // values (strings, numbers, objects) never do
+        let norm = |c: &Vec<(u32, String)>| -> Vec<(u32, String)> {
+            c.iter()
+                .enumerate()
+                .map(|(i, (id, text))| {
+                    let runtime = pred.caught_runtime.get(i).copied().unwrap_or(true);
+                    let t = if runtime { text.trim_end_matches(" [+more lines]").to_string() } else { text.clone() };
+                    (*id, t)
+                })
+                .collect()
+        };
+        let (a, b) = (norm(&pred.caught), norm(&obs.caught));
+        if a != b {
+            return v("caught-values", first_diff(&a, &b));
+        }
     }
     if pred.dumps != obs.dumps {
         return v("state-after-catch", first_diff(&pred.dumps, &obs.dumps));
@@ -474,6 +495,8 @@ pub fn eval_one(
     clock: &Rc<VClock>,
     check_c12: bool,
 ) -> (Prediction, Observed, Option<(Violation, &'static str, bool)>) {
+    // every execution is a fresh runtime
+    crate::simmodel::set_okmod_loaded(false);
     let pred = Model::run(
         p,
         printed,
@@ -490,6 +513,7 @@ pub fn eval_one(
         && !matches!(v.class.as_str(), "panic" | "no-return" | "internal-error")
     {
         // would the known deviation (finally skipped on abrupt exits) explain everything?
+        crate::simmodel::set_okmod_loaded(false);
         let dev = Model::run(
             p,
             printed,
@@ -1405,9 +1429,15 @@ impl Worker for UnwindWorker {
                 scenario: json!({
                     "source": mprinted.source,
                     "fault_plan": plan_to_json(&mf.plan),
-                    "expected": prediction_to_json(&Model::run(&mp, &mprinted, &mf.plan, ModelOpts { tick_start: 0, finally_on_abrupt_exit: true })),
+                    "expected": prediction_to_json(&{
+                        crate::simmodel::set_okmod_loaded(false);
+                        Model::run(&mp, &mprinted, &mf.plan, ModelOpts { tick_start: 0, finally_on_abrupt_exit: true })
+                    }),
                     "expected_deviation": if mf.finally_deviation {
-                        prediction_to_json(&Model::run(&mp, &mprinted, &mf.plan, ModelOpts { tick_start: 0, finally_on_abrupt_exit: false }))
+                        prediction_to_json(&{
+                            crate::simmodel::set_okmod_loaded(false);
+                            Model::run(&mp, &mprinted, &mf.plan, ModelOpts { tick_start: 0, finally_on_abrupt_exit: false })
+                        })
                     } else { Value::Null },
                 }),
                 extra: json!({
@@ -1439,8 +1469,10 @@ pub fn prediction_to_json(p: &Prediction) -> Value {
         "result": match &p.result { Ok(v) => json!({"ok": v}), Err(e) => json!({"err": e}) },
         "error_occurred": p.error_occurred,
         "storm_iterations": p.storm_iterations,
+        "model_steps": p.model_steps,
         "result_alt": p.result_alt,
         "trace_foreign": p.trace_foreign,
+        "caught_runtime": p.caught_runtime,
         "origin_line": p.origin_line,
         "trace_lines": p.trace_lines,
     })
@@ -1474,8 +1506,13 @@ pub fn prediction_from_json(v: &Value) -> Prediction {
         },
         error_occurred: v["error_occurred"].as_bool().unwrap_or(true),
         storm_iterations: v["storm_iterations"].as_u64().unwrap_or(0),
+        model_steps: v["model_steps"].as_u64().unwrap_or(0),
         result_alt: v["result_alt"].as_str().map(String::from),
         trace_foreign: strs(&v["trace_foreign"]),
+        caught_runtime: v["caught_runtime"]
+            .as_array()
+            .map(|a| a.iter().map(|x| x.as_bool().unwrap_or(true)).collect())
+            .unwrap_or_default(),
         origin_line: v["origin_line"].as_u64().map(|x| x as u32),
         trace_lines: v["trace_lines"]
             .as_array()
